@@ -17,7 +17,8 @@ seen as `crash rc=-6/-11`; a Rust panic is reported by pworker's catch_unwind.
   sizes       10^4, 10^5 (quick); 10^3, 10^4, 10^5, 10^6 (thorough)
   operations  build, copy_term, ==, compare, unify with a twin that has a
               variable leaf, subsumes_term, ground, term_variables,
-              acyclic_term, findall copy, assertz+call+retract, bb_put/bb_get,
+              acyclic_term, findall copy, findall of 12 copies (one reservation many
+              times the heap's size), assertz+call+retract, bb_put/bb_get,
               throw/catch, write_term_to_chars, read_term_from_chars of that
               text, format ~q, write_canonical to a file, portray_clause to a
               file, writeq to a file + read/2, consult of a file holding the
@@ -54,7 +55,7 @@ SCRATCH = os.path.join(pool.WORK, "agentH", "c34")
 HELPER = os.path.join(pool.ROOT, "vx", "prolog", "c34_terms.pl")
 
 SHAPES = ["list", "rdeep", "ldeep", "nest", "wide"]
-OPS = ["build", "copy", "eq", "compare", "unify", "subsumes", "ground", "tvars", "acyclic", "findall", "assert", "bb",
+OPS = ["build", "copy", "eq", "compare", "unify", "subsumes", "ground", "tvars", "acyclic", "findall", "findall12", "assert", "bb",
        "throw", "write", "read", "formatq", "wcanon", "pclause", "fread", "consult", "univ"]
 LIST_OPS = ["length", "sort", "append"]
 # shapes in which ONE compound cell is referenced N times, under the operations that compare or order
@@ -119,7 +120,7 @@ def expected(sh, n, op):
         return {"eq": "true", "neq": "false", "compare": "=", "lt": "false", "eqself": "true", "unify2": "true",
                 "copyeq": "true", "build": n, "sort": 1, "keysort": ("k", n, 1, n)}[op]
     eff = (n // 255) * 255 if sh == "wide" else n
-    if op in ("build", "copy", "findall", "assert", "bb", "throw", "read", "fread", "consult", "length", "sort"):
+    if op in ("build", "copy", "findall", "findall12", "assert", "bb", "throw", "read", "fread", "consult", "length", "sort"):
         return eff
     if op == "append":
         return n + 1
